@@ -1,0 +1,7 @@
+//go:build verif
+
+package diagnostic
+
+// VerifNolintContains exposes nolintContainsNilAway (the decision whether a comment is a nolint directive that
+// suppresses NilAway) to the correspondence harness of /verif (model M12, coq/model/Nolint.v).
+func VerifNolintContains(text string) bool { return nolintContainsNilAway(text) }
